@@ -43,6 +43,11 @@ CHECKS = {
    technique="rapid metamorphic testing over histories: workflows composed of independent jobs/steps with expressions biased to filter/property chains; delete/permute unrelated jobs and steps, insert a step, repeat; diagnostics of the observed unit compared relative to its start",
    text="The diagnostics attributed to an observed job or step (relative line, column, kind, normalised message) must be identical when unrelated jobs are deleted or reordered, id-less earlier steps are deleted, an extra expression-only step is inserted before it, or the run is repeated - i.e. for every generated history of rule-internal state before the unit is visited.",
    design="DESIGN.md section 5, C09"),
+ "C10": dict(
+   technique="rapid-generated multi-repository worlds; differential oracle LintFiles(subset, order, spelling, GOMAXPROCS) vs LintFile alone per file; built-in table fingerprint via a verif-tagged accessor; the same property re-run under the Go race detector",
+   text="Worlds with 1-3 repositories (prefix-sharing and nested names, files outside any repository), per-repository configuration, local actions and reusable workflows; per-file diagnostics of a multi-file invocation must equal those of the file linted alone; a fingerprint over every exported and unexported package-level table must not change; extra shards run the property under -race with halt_on_error so that a data race kills the worker and the driver recovers the world from the last-case file.",
+   note="Interleavings are sampled (GOMAXPROCS 1/2/4/16, repetition, up to 10 files), not enumerated; the race detector only reports races on executed paths. " + BASE_NOTE,
+   design="DESIGN.md section 5, C10"),
  "C11": dict(
    technique="rapid grammar-based generation of access chains over the documented untrusted paths and trusted relatives, in all spellings and embeddings; differential against a stateless top-down taint model over the harness's reference AST; positions checked through the linter",
    text="Expressions built from the documented untrusted paths (and trusted siblings/prefixes/extensions) with random per-segment spelling, array index/filter forms and embeddings are checked at the semantic-checker level and through the linter in script and non-script positions; the reported path sets and columns must equal those computed by an independent taint model on the harness's own parse tree.",
@@ -59,6 +64,10 @@ CHECKS = {
    technique="complete enumeration of the bundled popular-actions table + rapid-generated local actions and local reusable workflows in temporary repositories; expected diagnostic set computed from the generated/exported interface; callee linted alone and together with the caller in both orders",
    text="Call sites (random subsets of declared names in random case and order, undeclared names, dropped required names, typed values, output references) against every bundled action spec and against generated well-formed local actions and reusable workflows; the set of {undefined input/secret, missing required, undefined output, unassignable typed value} diagnostics with their lines must equal the set computed from the interface, for both interface derivations (file and in-memory AST).",
    design="DESIGN.md section 5, C14"),
+ "C15": dict(
+   technique="rapid-generated worlds run through the built actionlint binary from 12 (cwd, path spelling) combinations; reference filter (Go regexp on messages + harness glob matcher on the repository-relative path) applied to the unfiltered baseline; exit-status oracle",
+   text="Each generated world (workflow with 0-8 distinct diagnostics, `paths` globs with ignore regexes, -ignore regexes built from message fragments incl. inline flags, invalid regex / flag) is executed as a real process from the repository root, its parent, a nested and an unrelated directory with relative, ./-prefixed, absolute and no path arguments; output must equal the unfiltered list minus matched messages in unchanged order for every combination, and the exit status must be 0/1/2/3 as specified.",
+   design="DESIGN.md section 5, C15"),
  "C16": dict(
    technique="rapid generation of (line, column, source) triples for the snippet renderer with a reference rendering; rapid-generated workflows echoing hostile strings rendered in five output modes, round-tripped through the shipped problem-matcher regexp and JSON",
    text="Renderer in isolation over arbitrary positions and byte sources (never panics, header exact, snippet is the referenced line, caret at the display cell of the column, nothing for missing lines) and end-to-end over workflows whose user-controlled strings are hostile: one line per diagnostic, shipped matcher regexp parses each line back to the same fields, default mode equals a reference rendering, JSON round-trips, no line breaks in messages.",
@@ -75,6 +84,11 @@ CHECKS = {
    technique="rapid generation of matrix value trees from a small pool with derived (equal / subset / superset / changed / permuted) values; reference model for duplicate and exclude verdicts with exact positions; permutation metamorphic relation",
    text="Matrices with nested scalar/sequence/mapping values, include/exclude entries derived from row values and expression-defined parts are checked against a reference model (deep equality; subset/element-wise/equality containment over row values plus include assignments) with exact report positions, and re-rendered under random permutations of rows, values, members and entries, which must not change the number of reports of each class.",
    design="DESIGN.md section 5, C19"),
+ "C20": dict(
+   technique="rapid-generated worlds with a stand-in shellcheck/pyflakes whose latency and failure plan are generated; reference model of the effective shell; trace invariants over verif-tagged schedule points with injected delays; CPU pinning to make the bound small; race-detector shard",
+   text="The stand-in tool logs every invocation (pid, marker, stdin, start/end) and behaves per a generated plan (ok, k issues, silent non-zero exit, SIGKILL with and without output, empty, garbage); expected invocations and stdin come from a reference shell-resolution and sanitisation model; diagnostics must equal the printed issues at the run: key; planned failures must be fatal; the number of running tools never exceeds NumCPU (process pinned to 2 or 4 CPUs) in the schedule trace and the tool log; everything has ended, been collected and called back when LintFiles returns.",
+   note="Schedules are steered (tool latency patterns, seeded delays at the hook points), not enumerated; a violation needing a specific preemption inside the Go runtime can be missed. " + BASE_NOTE,
+   design="DESIGN.md section 5, C20"),
 }
 
 NOT_YET = {}
@@ -117,6 +131,6 @@ def main():
     json.dump(m, open(os.path.join(ROOT, "MANIFEST.json"), "w"), indent=1)
     print("checks:", len(checks), "not claimed:", len(na))
 
-HOOK_COMMITS = []
+HOOK_COMMITS = ["33bd68d"]
 if __name__ == "__main__":
     main()
